@@ -246,8 +246,9 @@ Proof.
   - cbn [fst]. apply D_queue_loop_turn; auto.
   - destruct (autodel s) as [|qn rest]; [exact H|].
     pose proof (I_autodel s rest H) as H0.
-    pose proof (I_del (negb (fx_delete_checks_first fx)) _ qn false false H0) as Hd.
-    destruct (vhost_delete_queue _ (s <| autodel := rest |>) qn false false) as [[s1 e1] r1]. exact Hd.
+    destruct (get_queue _ qn) as [qu0|]; [|exact H0]. destruct (q_autodel qu0); [|exact H0].
+    pose proof (I_del (negb (fx_delete_checks_first fx)) _ qn true false H0) as Hd.
+    destruct (vhost_delete_queue _ (s <| autodel := rest |>) qn true false) as [[s1 e1] r1]. exact Hd.
   - destruct (relay s) as [|u rest]; [exact H|].
     pose proof (I_relay s rest H) as H0.
     destruct (get_msg _ u) as [m|]; cbn [fst]; auto.
